@@ -3,7 +3,7 @@ PROP = {
     "harness": "c06",
     "driver": "c06",
     "n_quick": 120,
-    "n_thorough": 5000,
+    "n_thorough": 4000,
     "harness_timeout": 2400,
     "trusted": [
         "hook hsms/verif_export_send.go: isSecondaryReply on a raw data header; a fresh sysBytesGen with a chosen start value",
